@@ -264,7 +264,7 @@ harnesses! {
 
     // ---- reset() must size the next input from the ORIGINAL ratio: symbolic ratio before the reset,
     // then two plain calls (no setter in between, which would recompute the need)
-    #[kani::unwind(44)]
+    #[kani::unwind(64)]
     fn c03_ffo_reset_plain(nd) {
         let mut r = FastFixedOut::<f64>::new(1.0, 2.0, PolynomialDegree::Nearest, 10, 1).unwrap();
         let k = nd.u8();
